@@ -92,10 +92,9 @@ def desugar_try(mirj):
 
 def apply(facts):
     """desugar every body of a fact base in place; returns statistics"""
-    stats = {"try": 0}
-    for r in facts["fns"]:
-        stats["try"] += desugar_try(r.get("mir"))
-    for r in facts.get("built", []):
+    stats = {"try": 0, "checked_split": 0}
+    for r in list(facts["fns"]) + list(facts.get("built", [])):
+        stats["checked_split"] += checked_splits(r.get("mir"))
         stats["try"] += desugar_try(r.get("mir"))
     return stats
 
@@ -233,7 +232,7 @@ def _expand(prog, rec, b, kind, h):
     elif kind in ("filter", "is_some_and"):
         tb = _new_local(m, "bool")
         if kind == "filter":
-            keep = add_block([{"k": "assign", "place": copy.deepcopy(dest), "loc": loc, "rv": {"k": "use", "op": copy.deepcopy(x_op)}}], dict(goto_tgt))
+            keep = add_block([{"k": "assign", "place": copy.deepcopy(dest), "loc": loc, "rv": _some(dinner, {"k": "move", "place": copy.deepcopy(payload)})}], dict(goto_tgt))
             drop_ = add_block([{"k": "assign", "place": copy.deepcopy(dest), "loc": loc, "rv": _none(dinner)}], dict(goto_tgt))
             test = add_block([], {"k": "switch", "discr": {"k": "move", "place": {"local": tb, "proj": [], "ty": "bool"}}, "targets": [["0", drop_]], "otherwise": keep, "loc": loc})
             r = _new_local(m, "&" + xin)
@@ -316,3 +315,142 @@ def combinators(prog):
             prog.dropped_closures = getattr(prog, "dropped_closures", {})
             prog.dropped_closures[hs] = prog.fns.pop(hs)
     return done
+
+
+# --------------------------------------------------------------------------------------------------
+# checked std functions as the test + unchecked function they are documented to be
+# --------------------------------------------------------------------------------------------------
+
+CHECKED_SPLITS = {"<[T]>::split_at_checked": "<[T]>::split_at", "<[T]>::split_at_mut_checked": "<[T]>::split_at_mut"}
+
+
+def _ext_fn(path, targs):
+    name = path.split("::")[-1]
+    return {"k": "const", "ty": "fn{%s}" % path, "disp": path,
+            "fn": {"path": path, "short": path, "krate": "core", "name": name, "local": False, "args": list(targs), "rkind": "item", "rpath": path, "rshort": path,
+                   "rkrate": "core", "rlocal": False, "rargs": list(targs), "preds": []}}
+
+
+def checked_splits(mirj):
+    """`s.split_at_checked(k)` is documented as `if k <= s.len() { Some(s.split_at(k)) } else { None }`; rewritten to that.
+    In place; returns the number of sites."""
+    if not mirj:
+        return 0
+    n = 0
+    for bi in range(len(mirj["blocks"])):
+        blk = mirj["blocks"][bi]
+        t = blk["term"]
+        if t["k"] != "call" or _callee(t) not in CHECKED_SPLITS or t.get("target") is None or len(t["args"]) != 2 or t["dest"]["proj"]:
+            continue
+        s_op, k_op = t["args"]
+        if s_op.get("k") not in ("move", "copy") or k_op.get("k") not in ("move", "copy", "const"):
+            continue
+        loc, tgt, unwind, dest = t.get("loc"), t["target"], t.get("unwind", "continue"), t["dest"]
+        targs = ((t.get("func") or {}).get("fn") or {}).get("rargs") or ["T"]
+        pair_ty = _opt_inner(dest.get("ty"))
+        sty = s_op["place"].get("ty", "&[T]")
+        m = mirj
+
+        def add_block(stmts, term):
+            m["blocks"].append({"cleanup": bool(blk.get("cleanup")), "stmts": stmts, "term": term})
+            return len(m["blocks"]) - 1
+
+        ln = _new_local(m, "usize")
+        cond = _new_local(m, "bool")
+        pair = _new_local(m, pair_ty)
+        sref = _new_local(m, "&[T]")
+        kcopy = k_op if k_op.get("k") == "const" else {"k": "copy", "place": copy.deepcopy(k_op["place"])}
+        done = add_block([{"k": "assign", "place": copy.deepcopy(dest), "loc": loc, "rv": _some(pair_ty, {"k": "move", "place": {"local": pair, "proj": [], "ty": pair_ty}})}],
+                         {"k": "goto", "target": tgt, "loc": loc})
+        do_split = add_block([], {"k": "call", "func": _ext_fn(CHECKED_SPLITS[_callee(t)], targs), "args": [copy.deepcopy(s_op), copy.deepcopy(k_op)],
+                                   "dest": {"local": pair, "proj": [], "ty": pair_ty}, "arg_drop_impls": [], "arg_user_drop": False, "target": done, "unwind": unwind, "loc": loc})
+        none_b = add_block([{"k": "assign", "place": copy.deepcopy(dest), "loc": loc, "rv": _none(pair_ty)}], {"k": "goto", "target": tgt, "loc": loc})
+        test = add_block([{"k": "assign", "place": {"local": cond, "proj": [], "ty": "bool"}, "loc": loc,
+                           "rv": {"k": "binop", "op": "Le", "a": kcopy, "b": {"k": "move", "place": {"local": ln, "proj": [], "ty": "usize"}}}}],
+                         {"k": "switch", "discr": {"k": "move", "place": {"local": cond, "proj": [], "ty": "bool"}}, "targets": [["0", none_b]], "otherwise": do_split, "loc": loc})
+        # len(&*s)
+        blk["stmts"].append({"k": "assign", "place": {"local": sref, "proj": [], "ty": "&[T]"}, "loc": loc,
+                             "rv": {"k": "ref", "mut": False, "bk": "Shared", "place": {"local": s_op["place"]["local"], "proj": copy.deepcopy(s_op["place"]["proj"]) + [{"k": "deref"}], "ty": "[T]"}}})
+        blk["term"] = {"k": "call", "func": _ext_fn("<[T]>::len", targs), "args": [{"k": "move", "place": {"local": sref, "proj": [], "ty": "&[T]"}}],
+                       "dest": {"local": ln, "proj": [], "ty": "usize"}, "arg_drop_impls": [], "arg_user_drop": False, "target": test, "unwind": unwind, "loc": loc,
+                       "desugared": "split_at_checked"}
+        n += 1
+    return n
+
+
+# --------------------------------------------------------------------------------------------------
+# jump threading: a re-test of a value whose variant each predecessor has just fixed
+# --------------------------------------------------------------------------------------------------
+
+def _known_variant(stmts, local):
+    """variant index of the last assignment to `local` in stmts if it is an Option/enum aggregate, else None"""
+    for st in reversed(stmts):
+        if st["k"] == "assign" and st["place"]["local"] == local:
+            if st["place"]["proj"]:
+                return None
+            rv = st["rv"]
+            if rv["k"] == "aggregate" and rv.get("agg") == "adt" and "vi" in rv:
+                return int(rv["vi"])
+            return None
+        if st["k"] == "setdiscr" and st["place"]["local"] == local:
+            return None
+    return None
+
+
+def thread_jumps(mirj):
+    """A block J that only computes `d = discriminant(L)` and switches on d, reached by `goto` from predecessors that have
+    just assigned L an aggregate of a known variant: each such predecessor jumps straight to the arm of its variant.
+    (What the rewrites above leave behind: `dest = Some(..)` / `dest = None` followed by the `?` on dest.) In place."""
+    if not mirj:
+        return 0
+    blocks = mirj["blocks"]
+    n = 0
+    changed = True
+    rounds = 0
+    while changed and rounds < 8:
+        changed = False
+        rounds += 1
+        for j, J in enumerate(blocks):
+            t = J["term"]
+            if t["k"] != "switch" or t["discr"].get("k") not in ("move", "copy") or t["discr"]["place"]["proj"]:
+                continue
+            dl = t["discr"]["place"]["local"]
+            real = [s for s in J["stmts"] if s["k"] not in ("storagelive", "storagedead")]
+            if len(real) != 1 or real[0]["k"] != "assign" or real[0]["place"]["local"] != dl or real[0]["rv"]["k"] != "discriminant" or real[0]["rv"]["place"]["proj"]:
+                continue
+            L = real[0]["rv"]["place"]["local"]
+            arms = {int(v): bb for v, bb in t["targets"]}
+            for p, P in enumerate(blocks):
+                if p == j or P["term"]["k"] != "goto":
+                    continue
+                # follow empty goto blocks between P and J
+                tgt, hops = P["term"]["target"], 0
+                while tgt != j and hops < 4 and blocks[tgt]["term"]["k"] == "goto" and not [s for s in blocks[tgt]["stmts"] if s["k"] not in ("storagelive", "storagedead")]:
+                    tgt, hops = blocks[tgt]["term"]["target"], hops + 1
+                if tgt != j:
+                    continue
+                v = _known_variant(P["stmts"], L)
+                if v is None:
+                    continue
+                dest = arms.get(v, t["otherwise"])
+                P["stmts"].extend(copy.deepcopy(J["stmts"]))
+                P["term"] = {"k": "goto", "target": dest, "loc": P["term"].get("loc"), "desugared": "threaded"}
+                n += 1
+                changed = True
+    return n
+
+
+def thread_all(prog):
+    from . import mir
+
+    total = 0
+    for short in list(prog.fns):
+        f = prog.fns[short]
+        if not f.has_mir:
+            continue
+        rec = copy.deepcopy(f.rec)
+        k = thread_jumps(rec["mir"])
+        if k:
+            prog.fns[short] = mir.Fn(rec, prog)
+            total += k
+    return total
